@@ -307,6 +307,13 @@ func streamHCheck(t *testing.T, o *Out) {
 				t.Fatal(err)
 			}
 			o.Count(fmt.Sprintf("global-depth:%d", gd))
+			// the number of entries of a batch that are checked side by side: the default (5), one at a
+			// time, fewer and more than a batch has entries
+			par := []int{5, 1, 3, 10, 2, 7, 4}[(i/10)%7]
+			if err := env.reg.Config(env.ctx).Set(config.KeyBatchCheckParallelizationLimit, par); err != nil {
+				t.Fatal(err)
+			}
+			o.Count(fmt.Sprintf("batch-parallelization:%d", par))
 			if (i/10)%3 == 2 {
 				if err := env.setOPL(hcheckOPLNoTeam); err != nil {
 					t.Fatal(err)
